@@ -22,7 +22,7 @@ def exited_by_exception(env):
 
 
 def check_async(prog, ctx):
-    env = engine.run_program(prog, check_c06=True)
+    env = oracles.first(prog, check_c06=True)
     viol = oracles.clauses(env, "C06.")
     viol += oracles.alternation(env)
     if not viol:
